@@ -23,6 +23,8 @@ package tds
 //@ ghost field BytesChannel.$w int
 
 //@ pred chwf(ch BytesChannel) { 0 <= ch.$r && ch.$r <= ch.$end && 0 <= ch.$w }
+//@ paraminv BytesChannel [nonnil] nonnil(this)
+//@ paraminv BytesChannel [chwf] chwf(this)
 //@ pred le16(ch BytesChannel, p int) { ch.$in[p] + 256 * ch.$in[p+1] }
 //@ pred le32(ch BytesChannel, p int) { ch.$in[p] + 256 * ch.$in[p+1] + 65536 * ch.$in[p+2] + 16777216 * ch.$in[p+3] }
 //@ pred le64(ch BytesChannel, p int) { le32(ch, p) + 4294967296 * le32(ch, p+4) }
@@ -30,7 +32,7 @@ package tds
 //@ pred rdpost(ch BytesChannel, n int, err error) { chwf(ch) && (rdok(ch, n) ==> err == nil && ch.$r == old(ch.$r) + n && ch.$dry == old(ch.$dry)) && (!rdok(ch, n) ==> err != nil && neb(err) && ch.$dry && ch.$r == ch.$end) }
 
 //@ interface BytesChannel.Bytes params (n) returns (bs, err)
-//@   requires chwf(this)
+//@   requires [chwf] chwf(this)
 //@   requires [n>=0] n >= 0
 //@   modifies this.$r, this.$dry
 //@   ensures n == 0 ==> err == nil && this.$r == old(this.$r) && this.$dry == old(this.$dry) && chwf(this)
@@ -39,7 +41,7 @@ package tds
 //@   ensures err == nil ==> (forall k int :: 0 <= k && k < n ==> bs[k] == this.$in[old(this.$r) + k])
 
 //@ interface BytesChannel.String params (n) returns (s, err)
-//@   requires chwf(this)
+//@   requires [chwf] chwf(this)
 //@   requires [n>=0] n >= 0
 //@   modifies this.$r, this.$dry
 //@   ensures n == 0 ==> err == nil && this.$r == old(this.$r) && this.$dry == old(this.$dry) && chwf(this)
@@ -48,47 +50,47 @@ package tds
 //@   ensures err == nil ==> (forall k int :: 0 <= k && k < n ==> sat(s, k) == this.$in[old(this.$r) + k])
 
 //@ interface BytesChannel.Byte returns (v, err)
-//@   requires chwf(this)
+//@   requires [chwf] chwf(this)
 //@   modifies this.$r, this.$dry
 //@   ensures rdpost(this, 1, err)
 //@   ensures err == nil ==> v == this.$in[old(this.$r)]
 //@ interface BytesChannel.Uint8 returns (v, err)
-//@   requires chwf(this)
+//@   requires [chwf] chwf(this)
 //@   modifies this.$r, this.$dry
 //@   ensures rdpost(this, 1, err)
 //@   ensures err == nil ==> v == this.$in[old(this.$r)]
 //@ interface BytesChannel.Int8 returns (v, err)
-//@   requires chwf(this)
+//@   requires [chwf] chwf(this)
 //@   modifies this.$r, this.$dry
 //@   ensures rdpost(this, 1, err)
 //@   ensures err == nil ==> (v - this.$in[old(this.$r)]) % 256 == 0
 //@ interface BytesChannel.Uint16 returns (v, err)
-//@   requires chwf(this)
+//@   requires [chwf] chwf(this)
 //@   modifies this.$r, this.$dry
 //@   ensures rdpost(this, 2, err)
 //@   ensures err == nil ==> v == le16(this, old(this.$r))
 //@ interface BytesChannel.Int16 returns (v, err)
-//@   requires chwf(this)
+//@   requires [chwf] chwf(this)
 //@   modifies this.$r, this.$dry
 //@   ensures rdpost(this, 2, err)
 //@   ensures err == nil ==> (v - le16(this, old(this.$r))) % 65536 == 0
 //@ interface BytesChannel.Uint32 returns (v, err)
-//@   requires chwf(this)
+//@   requires [chwf] chwf(this)
 //@   modifies this.$r, this.$dry
 //@   ensures rdpost(this, 4, err)
 //@   ensures err == nil ==> v == le32(this, old(this.$r))
 //@ interface BytesChannel.Int32 returns (v, err)
-//@   requires chwf(this)
+//@   requires [chwf] chwf(this)
 //@   modifies this.$r, this.$dry
 //@   ensures rdpost(this, 4, err)
 //@   ensures err == nil ==> (v - le32(this, old(this.$r))) % 4294967296 == 0
 //@ interface BytesChannel.Uint64 returns (v, err)
-//@   requires chwf(this)
+//@   requires [chwf] chwf(this)
 //@   modifies this.$r, this.$dry
 //@   ensures rdpost(this, 8, err)
 //@   ensures err == nil ==> v == le64(this, old(this.$r))
 //@ interface BytesChannel.Int64 returns (v, err)
-//@   requires chwf(this)
+//@   requires [chwf] chwf(this)
 //@   modifies this.$r, this.$dry
 //@   ensures rdpost(this, 8, err)
 //@   ensures err == nil ==> (v - le64(this, old(this.$r))) % 18446744073709551616 == 0
@@ -96,21 +98,22 @@ package tds
 //@ # ---------------------------------------------------------------------
 //@ # C07: every parser reports a dry stream as ErrNotEnoughBytes
 //@ interface Package.ReadFrom params (ch) returns (err)
-//@   requires nonnil(ch) && chwf(ch)
 //@   modifies ch.$r, ch.$dry
 //@   ensures [neb-on-dry] ch.$dry && !old(ch.$dry) ==> err != nil && neb(err)
-//@   ensures [ok-not-dry] err == nil && !old(ch.$dry) ==> !ch.$dry
+//@   ensures [ok-not-dry] err == nil ==> ch.$dry == old(ch.$dry)
 //@   ensures [chwf] chwf(ch)
 
 //@ interface FieldFmt.ReadFrom params (ch) returns (n, err)
-//@   requires nonnil(ch) && chwf(ch)
 //@   modifies ch.$r, ch.$dry
 //@   ensures [neb-on-dry] ch.$dry && !old(ch.$dry) ==> err != nil && neb(err)
-//@   ensures [ok-not-dry] err == nil && !old(ch.$dry) ==> !ch.$dry
+//@   ensures [ok-not-dry] err == nil ==> ch.$dry == old(ch.$dry)
 //@   ensures [chwf] chwf(ch)
 //@ interface FieldData.ReadFrom params (ch) returns (n, err)
-//@   requires nonnil(ch) && chwf(ch)
 //@   modifies ch.$r, ch.$dry
 //@   ensures [neb-on-dry] ch.$dry && !old(ch.$dry) ==> err != nil && neb(err)
-//@   ensures [ok-not-dry] err == nil && !old(ch.$dry) ==> !ch.$dry
+//@   ensures [ok-not-dry] err == nil ==> ch.$dry == old(ch.$dry)
 //@   ensures [chwf] chwf(ch)
+
+//@ # helpers that take a BytesChannel obey the same clause
+//@ func (*fieldDataBase).readFrom like FieldData.ReadFrom
+//@ func (*fieldData).ReadFrom like FieldData.ReadFrom
